@@ -85,6 +85,7 @@ SPECS["C04"] = dict(
         rapid("TestC04Core", 500, 15000, sq=4, st=16),
         rapid("TestC04Hostile", 6000, 300000, sq=2, st=16),
         plain("TestC04KnownCwndReopen", sq=1, st=1),
+        rapid("TestC04SessionWrite", 250, 8000, sq=2, st=16),
     ],
 )
 
@@ -99,6 +100,7 @@ SPECS["C18"] = dict(
     jobs=[
         rapid("TestC18CleanPath", 2500, 60000, sq=2, st=16),
         rapid("TestC18RTOBounds", 5000, 200000, sq=2, st=16),
+        rapid("TestC18SessionRTO", 250, 8000, sq=2, st=16),
     ],
 )
 
@@ -112,6 +114,8 @@ SPECS["C10"] = dict(
     rule="TODO",
     jobs=[
         rapid("TestC10Core", 1500, 40000, sq=4, st=16),
+        rapid("TestC10Session", 300, 9000, sq=4, st=16),
+        plain("TestC10KnownParityAfterShrink", sq=1, st=1),
     ],
 )
 
@@ -139,6 +143,7 @@ SPECS["C09"] = dict(
     rule="TODO",
     jobs=[
         rapid("TestC09Session", 350, 10000, sq=6, st=16),
+        plain("TestC09Entropy", sq=1, st=1, env={"C09_ENTROPY_DRAWS": {Q: 1 << 18, T: 1 << 22}}),
     ],
 )
 
